@@ -419,6 +419,41 @@ def _class_of(fn, st, nid):
     return None
 
 
+_OUTC = {}
+
+
+def outparam_consts(P, d):
+    """{parameter index: constant} for pointer parameters through which d stores one and the same constant on every
+    non-aborting path (timer_mgr_ack(mgr, &id) leaves id == -1).  Derived from d's body on every run."""
+    if d.key in _OUTC:
+        return _OUTC[d.key]
+    _OUTC[d.key] = {}
+    out = {}
+    if not d.blocks:
+        return out
+    for i, p in enumerate(d.params):
+        if "*" not in (p.get("t") or ""):
+            continue
+        consts, blocks, other = set(), set(), False
+        for b, idx, e, lhs, rhs, op in d.stores():
+            ln = d.nodes[d._strip0(lhs)]
+            if ln["k"] == "un" and ln["op"] == "*":
+                t = d.nodes[d._strip0(ln["sub"])]
+                if t["k"] == "ref" and t.get("dk") == "param" and t["name"] == p["name"]:
+                    cv = C.const_of(d, rhs) if (rhs is not None and op == "=") else None
+                    if cv is None:
+                        other = True
+                    else:
+                        consts.add(cv)
+                        blocks.add(b.id)
+        if other or len(consts) != 1:
+            continue
+        if C.must_pass(d, [d.entry], lambda bb, blocks=blocks: bb in blocks):
+            out[i] = next(iter(consts))
+    _OUTC[d.key] = out
+    return out
+
+
 def truth(fn, st, nid):
     """1 / 0 when the expression is known true / false on this path (a constant, or a variable whose sign class is known), else None"""
     v = C.const_of(fn, nid)
@@ -547,7 +582,20 @@ def _elem(rule, fn, st, nid, depth, budget, stack, exits, top):
                 out.append(st.with_errno((nid, False, None)).set(("call", nid), c))
             return list(set(out))
         c = rule.call_class(fn, st, nid, defs, exts)
-        return [st.set(("call", nid), c)]
+        st = st.set(("call", nid), c)
+        # constants a callee leaves behind its pointer arguments on every path
+        if len(defs) == 1 and not exts:
+            oc = outparam_consts(P, defs[0])
+            for i, cv in oc.items():
+                if i < len(n["args"]):
+                    a = fn.nodes[fn._strip0(n["args"][i])]
+                    if a["k"] == "un" and a["op"] == "&":
+                        tgt = fn.nodes[fn._strip0(a["sub"])]
+                        if tgt["k"] == "member" and tgt.get("field"):
+                            st = st.set("M:" + fn.apath_str(a["sub"]), cls_of_const(cv))
+                        elif tgt["k"] == "ref" and tgt.get("dk") in ("local", "param"):
+                            st = st.set(vkey(tgt["name"], tgt.get("did")), cls_of_const(cv))
+        return [st]
     if k == "bin" and n["op"] in ("=", "+=", "-=", "|=", "&=", "*=", "/="):
         ln = fn.sn(n["l"])
         if fn.show(n["l"]) == "errno":
